@@ -43,7 +43,7 @@ def unsubscribeBody (pk : Packet) : Str :=
 def WFUnsubscribe (pk : Packet) : Prop :=
   WFHeader pk.fixedHeader ∧ pk.packetID ≠ 0 ∧ pk.packetID < 65536 ∧ (∀ s ∈ pk.filters, wfStr s.filter) ∧
   (pk.protocolVersion = 5 →
-    WFProps pk.properties ∧ propsBodyLen 10 pk.mods (2 + (unsubWire pk.filters).length) pk.properties ≤ maxVBI)
+    WFProps pk.properties ∧ propsBodyLenC 10 pk.mods (2 + (unsubWire pk.filters).length) pk.properties ≤ maxVBI)
 
 /-- an UNSUBSCRIBE transmits topic filters only: every other field of a filter entry is dropped -/
 def unsubscribeNorm (pk : Packet) : Packet :=
@@ -78,7 +78,7 @@ theorem C26_unsubscribe_roundtrip (pk : Packet) (ht : pk.fixedHeader.type = 10) 
     · obtain ⟨hwf, hlen⟩ := hp hv
       have hv' : (pk.protocolVersion == 5) = true := by simpa using hv
       simp only [hv', if_true] at h1 ⊢
-      have e2 := decodePropsAt_At (name := "ErrMalformedProperties") h1 hwf hlen
+      have e2 := decodePropsAt_AtC (name := "ErrMalformedProperties") h1 hwf hlen
       have h2 : At (unsubscribeBody pk) _ (unsubWire pk.filters) := h1.step
       have e3 := unsubscribeFilters_At _ pk.filters hfs _ _ [] hfuel h2
       simp only [e2, e3]
@@ -166,7 +166,7 @@ def WFSubscribe (pk : Packet) : Prop :=
   WFHeader pk.fixedHeader ∧ pk.packetID ≠ 0 ∧ pk.packetID < 65536 ∧ (∀ s ∈ pk.filters, WFSub s) ∧
   (pk.protocolVersion = 5 →
     WFProps pk.properties ∧
-    propsBodyLen 8 pk.mods (2 + (subWire pk.protocolVersion pk.filters).length) pk.properties ≤ maxVBI)
+    propsBodyLenC 8 pk.mods (2 + (subWire pk.protocolVersion pk.filters).length) pk.properties ≤ maxVBI)
 
 def subscribeProps (pk : Packet) : Props :=
   if pk.protocolVersion == 5 then
@@ -205,7 +205,7 @@ theorem C26_subscribe_roundtrip (pk : Packet) (ht : pk.fixedHeader.type = 8) (h 
     · obtain ⟨hwf, hlen⟩ := hp hv
       have hv' : (pk.protocolVersion == 5) = true := by simpa using hv
       simp only [hv', if_true] at h1 ⊢
-      have e2 := decodePropsAt_At (name := "ErrMalformedProperties") h1 hwf hlen
+      have e2 := decodePropsAt_AtC (name := "ErrMalformedProperties") h1 hwf hlen
       have h2 : At (subscribeBody pk) _ (subWire pk.protocolVersion pk.filters) := h1.step
       simp only [e2]
       have e3 := subscribeFilters_At pk.protocolVersion
